@@ -267,7 +267,7 @@ def pipeline(sub: _SubScratch, c: Chunk, scen_override: list[dict] | None = None
     b: dict[str, Any] = {"chunk": c, "tlc": [], "violated": None, "scen": [], "res": [], "vs": {}, "negs": []}
     if scen_override is None:
         conc = c.family == "conc"
-        r = run_tlc(sub, c.module, design_cfg(c, "as_is", True, HOLDING_CONC if conc else HOLDING, HOLDING_PROPS), allow_violation=True, workers=12, coverage=conc)
+        r = run_tlc(sub, c.module, design_cfg(c, "as_is", True, HOLDING_CONC if conc else HOLDING, HOLDING_PROPS), allow_violation=True, workers=12, coverage=conc, timeout=2700)
         b["tlc"].append((f"{c.module}[as_is,{c.label}]", r))
         if conc and not r.violated:
             for a in ACTIONS_CONC:
@@ -291,22 +291,27 @@ def pipeline(sub: _SubScratch, c: Chunk, scen_override: list[dict] | None = None
                 if pred(s["sc"]) and all(o["err"] == "none" for o in r["obs"]):
                     negs.append({"id": f"neg-{c.label}-{name}", "base": j["id"], "sc": s["sc"], "obs": corrupt(r["obs"]), "expect": clause, "name": name})
                     break
-    d = sub.sub("traces")
-    tf = d / "traces.ndjson"
-    with tf.open("w") as f:
-        for j, s, r in zip(jobs, scen, res):
-            f.write(json.dumps({"id": j["id"], "sc": s["sc"], "obs": r["obs"]}) + "\n")
-        for n in negs:
-            f.write(json.dumps({"id": n["id"], "sc": n["sc"], "obs": n["obs"]}) + "\n")
-    r = run_tlc(sub, "Trace_Transport", "SPECIFICATION Spec\nCHECK_DEADLOCK FALSE\n", env={"TRACE_FILE": str(tf)}, coverage=len(scen) < 2000, workers=12)
-    b["tlc"].append((f"Trace_Transport[{c.label}]", r))
-    vs = {v["id"]: v for v in r.printed.get("VERDICT", [])}
-    if len(vs) != len(jobs) + len(negs):
-        raise core.MachineryError(f"monitor produced {len(vs)} verdicts for {len(jobs) + len(negs)} traces ({c.label})")
+    # the monitor: batches of <= MONITOR_BATCH traces per TLC run (bounded memory and run time)
+    recs = [{"id": j["id"], "sc": s["sc"], "obs": r["obs"]} for j, s, r in zip(jobs, scen, res)]
+    recs += [{"id": n["id"], "sc": n["sc"], "obs": n["obs"]} for n in negs]
+    vs: dict[str, Any] = {}
+    for k in range(0, len(recs), MONITOR_BATCH):
+        d = sub.sub("traces")
+        tf = d / "traces.ndjson"
+        with tf.open("w") as f:
+            for rec in recs[k : k + MONITOR_BATCH]:
+                f.write(json.dumps(rec) + "\n")
+        r = run_tlc(sub, "Trace_Transport", "SPECIFICATION Spec\nCHECK_DEADLOCK FALSE\n", env={"TRACE_FILE": str(tf)}, coverage=len(recs) < 2000, workers=12, timeout=2700)
+        b["tlc"].append((f"Trace_Transport[{c.label}#{k // MONITOR_BATCH}]", r))
+        for v in r.printed.get("VERDICT", []):
+            vs[v["id"]] = v
+    if len(vs) != len(recs):
+        raise core.MachineryError(f"monitor produced {len(vs)} verdicts for {len(recs)} traces ({c.label})")
     b.update(scen=scen, res=res, vs=vs, negs=negs, jobs=jobs)
     return b
 
 
+MONITOR_BATCH = 30000
 _seen: dict[str, int] = {}
 
 
